@@ -83,6 +83,26 @@ def structural(labelled):
     return None, referenced
 
 
+def collision_suffix(srcs):
+    """identifier sets whose labels coincide (open finding F-D13): f/fend, f_x/f.x, generated-label look-alikes"""
+    import ast as _ast
+
+    labels = []
+    for mod, text in srcs.items():
+        try:
+            tree = _ast.parse(text)
+        except SyntaxError:
+            continue
+        for n in _ast.walk(tree):
+            if isinstance(n, _ast.FunctionDef):
+                q = (mod + "." if mod else "") + n.name
+                labels.append(q.replace("_", "."))
+    allv = labels + [l + "end" for l in labels]
+    if len(set(allv)) < len(allv) or any(idents.LABELISH.match(l.split(".")[-1]) for l in labels):
+        return ":D13-colliding-identifiers"
+    return ""
+
+
 def check_case(case, stats=None, K=oracle.K_QUICK):
     srcs, base = case["src"], dict(case.get("opts") or {})
     if stats is not None:
@@ -98,7 +118,7 @@ def check_case(case, stats=None, K=oracle.K_QUICK):
     detail = {"opts": base, "labelled": lab["code"], "numbered": num["code"]}
     bad, referenced = structural(lab["code"])
     if bad:
-        raise Violation(bad[0], dict(detail, **bad[1]))
+        raise Violation(bad[0] + collision_suffix(srcs), dict(detail, **bad[1]))
     bad2, _ = structural(num["code"])
     if bad2:
         raise Violation(bad2[0] + ":label-free-output", dict(detail, **bad2[1]))
@@ -128,7 +148,7 @@ def check_case(case, stats=None, K=oracle.K_QUICK):
             pair.append(m)
         kind, d = compare.compare_vm_vm(pair[0], pair[1])
         if kind == "mismatch":
-            raise Violation("C05:label-modes-behave-differently:" + d["what"], dict(detail, compare=d))
+            raise Violation("C05:label-modes-behave-differently:" + d["what"] + oracle.shape_suffix(srcs), dict(detail, compare=d))
         ms.append(pair[0])
     if stats is not None:
         names = case.get("names", [])
